@@ -759,11 +759,11 @@ def rule_accum_delta(P):
     yk = W.cnorm(f.node, ast.parse(y, mode="eval").body, inner.body[-1])
     for c in slash_sites:
         facts = {x for x in W.cfacts(f.node, c) if not x.endswith("in self.N")}
-        term = [x for x in facts if "is_terminal(" in x]
+        term = [x for x in facts if "is_terminal(" in x or "is_nonterminal(" in x]
         if not term:
             r.undecided(f, c, f"`{first_line(c)}`: no is_terminal case split among its guards {sorted(facts)}", construct="derivative: case split per position")
             continue
-        if term[0].startswith("not "):
+        if term[0].startswith("not ") == ("is_terminal(" in term[0]):  # not is_terminal(y)  /  is_nonterminal(y)
             extra = sorted(facts - {term[0]})
             ok = not extra
             r.add(f, c, ok, "" if ok else f"the slash rule of a nonterminal position is emitted only when {' and '.join(extra)}: the other nonterminal "
